@@ -1539,3 +1539,35 @@ def rule_s17(ctx, rid: str, in_scope, consequence: str, floor: int = 10):
         ctx.counts[rid] = ctx.counts.get(rid, 0) + 1
     ctx.ob(rid, f"{n} loops examined: no loop variable is read after its loop", True, nontrivial=False, how="shared rule S17")
     ctx.require(n >= floor, f"{rid}: only {n} loops in scope of the loop-variable rule")
+
+
+# ----------------------------------------------------------------------------------------------------------------- S18
+def ref_attr_guards(f: FuncInfo):
+    """Shared rule S18: [(dispatch node, guarded)] - in a function that dispatches on `attr.type == AttributeType.GRAPH / GRAPHS` and
+    then reads `attr.value` (a reference attribute has none), every dispatch is reached only for attributes that are not
+    references: an `is_ref()` test that leaves the iteration (`continue`) or encloses the dispatch precedes it."""
+    out = []
+    for n in own_nodes(f.node):
+        if not isinstance(n, ast.If):
+            continue
+        k = _test_kind(n.test)
+        if not k or not any(isinstance(x, ast.Attribute) and x.attr == "value" for st in n.body for x in ast.walk(st)):
+            continue
+        p = getattr(n, "_parent", None)
+        if isinstance(p, ast.If) and p.orelse == [n] and _test_kind(p.test):
+            continue  # an elif of a chain that was counted at its head
+        guarded = False
+        child, p_ = n, getattr(n, "_parent", None)
+        while p_ is not None and p_ is not f.node and not guarded:
+            if isinstance(p_, ast.If) and any(isinstance(x, ast.Call) and isinstance(x.func, ast.Attribute) and x.func.attr == "is_ref" for x in ast.walk(p_.test)):
+                guarded = True
+            for fld in ("body", "orelse"):
+                b = getattr(p_, fld, None)
+                if isinstance(b, list) and any(child is st for st in b):
+                    for st in b[: next(i for i, y in enumerate(b) if y is child)]:
+                        if isinstance(st, ast.If) and any(isinstance(y, (ast.Continue, ast.Return, ast.Raise)) for y in st.body) \
+                                and any(isinstance(x, ast.Call) and isinstance(x.func, ast.Attribute) and x.func.attr == "is_ref" for x in ast.walk(st.test)):
+                            guarded = True
+            child, p_ = p_, getattr(p_, "_parent", None)
+        out.append((n, guarded))
+    return out
